@@ -5,7 +5,7 @@ import "sort"
 // Aggregate is what a worker reports for a batch of runs.
 type Aggregate struct {
 	Runs       int64            `json:"runs"`
-	SimNS      int64            `json:"sim_ns"`
+	SimS       float64          `json:"sim_s"`
 	Events     int64            `json:"events"`
 	Faults     map[string]int64 `json:"faults"`
 	Probes     map[string]int64 `json:"probes"`
@@ -33,7 +33,7 @@ func NewAggregate() *Aggregate {
 // non-vacuous obligation.
 func (a *Aggregate) Add(r *Result) {
 	a.Runs++
-	a.SimNS += r.SimNS
+	a.SimS += float64(r.SimNS) / 1e9
 	a.Events += r.Events
 	nf := int64(0)
 	for k, v := range r.Faults {
